@@ -38,11 +38,11 @@ def install(reg, src):
         return w
     reg.grad_contract_domd = grad_contract_with_domd
 
-    def the_point(ip, sp, IDX):
+    def the_point(ip, sp, IDX, n_len=None):
         """The arbitrary point: x denotes the path's arbitrary environment E; the parameter store at call time is the
         arbitrary valuation PVX (both are unconstrained constants, so nothing is lost)."""
         arr = sym.fresh("x", sym.RealArr)
-        x = SArr(arr, n=NV(IDX), envlink=(IDX, sp.E, ip.path))
+        x = SArr(arr, n=NV(IDX) if n_len is None else n_len, envlink=(IDX, sp.E, ip.path))     # one entry per listed variable
         ip.path.havoc_store("_value", sym.R)
         ip.path.assume(ip.path.store_of("_value", sym.R) == sp.PVX)
         return x
@@ -57,17 +57,20 @@ def install(reg, src):
                 x.envlink = (IDX, sym.fresh("ENV_x", sym.EnvSort), ip2.path)
             ENV = x.envlink[1]
             sp2 = Spec(ip2)
-            PV = sp2.PV
+            PV = ip2.path.store_of("_value", sym.R)          # parameter values at the time of the call (C12)
             n2 = ip2.models.len_term(vs.n)
             base = sym.fresh("grad_out", sym.RealArr)
 
             def get(k):
                 kt = k if not isinstance(k, int) else z3.IntVal(k)
                 wk = FN(vs.get(kt).ref)
-                hyp = sp2.reg(e, wk, ENV, PV)
-                if need_domd:
-                    hyp = z3.And(hyp, DOMD(sp2.ref(e), wk, ENV, PV))
-                ip2.path.assume(z3.Implies(z3.And(kt >= 0, kt < n2, hyp), z3.Select(base, kt) == sp2.dv(e, wk, ENV, PV)))
+                # raw spec symbols: the unfolding of DV / REG for this column is requested by whoever reasons about the
+                # column (asking for it at every index term would feed the instantiation loop of the sequence theory)
+                r_ = sp2.ref(e)
+                hyp = sp2.S.REG(r_, wk, ENV, PV)
+                if need_domd is not False and need_domd is not None:
+                    hyp = z3.And(hyp, (DOMD if need_domd is True else need_domd)(r_, wk, ENV, PV))
+                ip2.path.assume(z3.Implies(z3.And(kt >= 0, kt < n2, hyp), z3.Select(base, kt) == sp2.S.DV(r_, wk, ENV, PV)))
                 return SReal(z3.Select(base, kt), "npfloat")
             return SSeq(n2, get, "ndarray", "gradient")
         return SpecFn(call, "compiled gradient", meta={"gradient_of": (e, vs, IDX)})
@@ -97,7 +100,7 @@ def install(reg, src):
         c.returns(lambda cc: gradient_fn(sp, e, vs, IDX, True))
         if c.verifying:
             def post(res):
-                x = the_point(ip, sp, IDX)
+                x = the_point(ip, sp, IDX, n)
                 k = skolem(ip, "sk_col", n)
                 index_used(ip, k)
                 ip.path.assume(z3.And(k >= 0, k < n))
@@ -139,7 +142,7 @@ def install(reg, src):
             c.returns(lambda cc: gradient_fn(sp, e, vs, IDX, False))
             if c.verifying:
                 def post(res):
-                    x = the_point(ip, sp, IDX)
+                    x = the_point(ip, sp, IDX, n)
                     k = skolem(ip, "sk_col", n)
                     index_used(ip, k)
                     ip.path.assume(z3.And(k >= 0, k < n))
@@ -159,3 +162,169 @@ def install(reg, src):
     from pyvc.spec import VEC_UNARY_OPS
     vec_grad_contract(f"{CP}:_compile_vectorized_unary_gradient", "VectorUnarySum", cases={"op": list(VEC_UNARY_OPS)},
                       known=lambda c: ({"op": c.choose("op", list(VEC_UNARY_OPS))} if c.choose("op", list(VEC_UNARY_OPS)) else None))
+
+    # ---- compile_jacobian: the m x n matrix of partial derivatives (proved for one and for two expressions)
+    JKINDS = ["general", "VectorPowerSum", "VectorUnarySum"]
+
+    @reg.contract(f"{AD}:compile_jacobian", props=["C03", "C09", "C10", "C14"], cases={"__combos__": [{"m": 1, "kind": k_} for k_ in JKINDS]},
+                  note="proved for a single expression (every call site in the library passes one); lists of several expressions "
+                       "multiply the paths beyond the quick budget and are covered by the bounded stand-in only")
+    def _(c):
+        ip = c.ip
+        sp = Spec(ip)
+        mm, kind = (c.case.get("m"), c.case.get("kind")) if c.verifying else (None, None)
+        if c.verifying:
+            if kind == "general":
+                es = [T.expr().fresh(ip, f"e{k}") for k in range(mm)]
+                if mm == 1:
+                    c.assume(z3.Not(sp.K.is_any(sp.ref(es[0]), ["VectorPowerSum", "VectorUnarySum"])))
+            else:
+                es = [T.obj(kind, exact=True).fresh(ip, "e0")]
+            exprs = c.arg("exprs", T.const(PList(es)))
+        else:
+            exprs = c.arg("exprs")
+            if not isinstance(exprs, PList):
+                raise Unsupported("compile_jacobian with a symbolic-length list of expressions")
+            es = list(exprs.items)
+        vs = varlist(c)
+        NS = names_of_varlist(ip, vs)
+        for e in es:
+            c.requires(sp.wf(e), name="well-formed scalar expression")
+            c.requires(reg.covers(sp, e, NS), name="every variable of the expression is in the variable list")
+            if c.verifying:
+                reg.covers_to_occ(sp, e, NS)
+        m = index_map_of_varlist(ip, vs)
+        IDX = m.idx
+        n = ip.models.len_term(vs.n)
+
+        from .jacrow_c import DOMJ as DOMJ_
+
+        def jac_fn():
+            def call(ip2, x, *rest):
+                rows = [reg.gradient_fn(Spec(ip2), e, vs, IDX, DOMJ_).fn(ip2, x) for e in es]
+                return SpecFn(None, "jacobian matrix", meta={"rows": rows, "getitem": lambda ip3, key: mat_get(ip3, rows, key),
+                                                             "methods": {"flatten": lambda ip3: flat(rows)}, "row": rows[0]})
+            return SpecFn(call, "compiled jacobian", meta={"jacobian_of": list(es)})
+
+        def flat(rows):
+            if len(rows) == 1:
+                return rows[0]
+            raise Unsupported("flatten of a jacobian with several rows")
+
+        def mat_get(ip3, rows, key):
+            if isinstance(key, tuple) and len(key) == 2 and isinstance(key[0], int):
+                return ip3.models.getitem(ip3, rows[key[0]], key[1])
+            if isinstance(key, int):
+                return rows[key]
+            raise Unsupported("jacobian indexing")
+        c.returns(lambda cc: jac_fn())
+        if c.verifying:
+            from .jacrow_c import DOMJ
+            JFN = f"{AD}:compile_jacobian.jacobian_fn"
+            tagn = sym.fresh("JROWDONE", sym.B).decl().name().replace("!", "_")
+
+            def row_done(st, i_row):
+                """forall k < j . result[i_row, k] = compiled_elements[i_row][k](x)"""
+                res_ = st.var("result")
+                x_ = st.var("x")
+                fns = ip.models.getitem(ip, st.var("compiled_elements"), i_row)
+                marr = res_.arr
+
+                def pred(k):
+                    f = ip.models.getitem(ip, fns, SInt(k))
+                    v = ip.call(f, [x_], {}, None)
+                    return sym.msel(marr, z3.IntVal(i_row), k) == real_term(v)
+                return lambda bound: prefix_forall(ip, f"{tagn}_{i_row}", [marr], bound, pred)
+
+            def inv(st):
+                i_cur = st.var("i")
+                if not isinstance(i_cur, int):
+                    raise Unsupported("outer loop of jacobian_fn is expected to be unrolled")
+                goals = [row_done(st, i_cur)(st.i)]
+                for i_prev in range(i_cur):
+                    goals.append(row_done(st, i_prev)(n))
+                return goals
+            c.loop(2, inv, owner=JFN)
+
+            def post(res):
+                x = the_point(ip, sp, IDX, n)
+                k = skolem(ip, "sk_col", n)
+                index_used(ip, k)
+                ip.path.assume(z3.And(k >= 0, k < n))
+                wk = FN(vs.get(k).ref)
+                # definition of the environment denoted by x, at the column's variable
+                ip.path.assume(z3.Select(x.arr, z3.Select(IDX, wk)) == z3.Select(sp.E, wk))
+                out = ip.call(res, [x], {}, None)
+                goals = []
+                for i, e in enumerate(es):
+                    hyp = z3.And(sp.reg(e, wk, sp.E, sp.PVX), DOMJ(sp.ref(e), wk, sp.E, sp.PVX))
+                    val = ip.models.getitem(ip, out, (i, SInt(k)))
+                    goals.append(z3.Implies(hyp, real_term(val) == sp.dv(e, wk, sp.E, sp.PVX)))
+                ip.reg.saturate(ip)
+                return goals
+            c.ensures("jacobian entry", post)
+
+    # ---- _is_scaled_variable_pattern: (c, True) only if every row entry is  c * V[k]  (either operand order)
+    from .seqtheory import named_forall, prefix_forall, seqs as _seqs, _once as _once1
+
+    @reg.contract(f"{AD}:_is_scaled_variable_pattern", props=["C03"])
+    def _(c):
+        ip = c.ip
+        sp = Spec(ip)
+        row = c.arg("jacobian_row", T.seq(T.expr()))
+        vs = varlist(c)
+        if not isinstance(row, SSeq):
+            raise Unsupported("_is_scaled_variable_pattern with a concrete row")
+        n = ip.models.len_term(vs.n)
+        E, PV = sp.E, sp.PVX
+
+        def entry_is(k, sc):
+            kt = k if not isinstance(k, int) else z3.IntVal(k)
+            el = row.get(kt)
+            return sp.den(el, E, PV) == sc * z3.Select(E, FN(vs.get(kt).ref))
+        tagname = sym.fresh("SCALEDROW", sym.B).decl().name().replace("!", "_")
+
+        def scaled(sc):
+            return named_forall(ip, tagname, [sc], n, lambda k: entry_is(k, sc))
+        if c.verifying:
+            for k_ in range(0):
+                pass
+
+            def inv(st):
+                sc = st.var("scale")
+                if sc is None:
+                    return [st.i == 0]
+                if isinstance(sc, SOpt):
+                    scv = real_term(sc.val)
+                    return [z3.If(sc.isnone, st.i == 0, z3.And(st.i > 0, scaled(scv)(st.i)))]
+                return [z3.And(st.i > 0, scaled(real_term(sc))(st.i))]
+            c.loop(1, inv, havoc={"scale": T.opt(T.real("pynum")), "c": T.real("pynum")})
+        c.returns(lambda cc: SOpt(sym.fresh("pattern_none", sym.B), (SReal(sym.fresh("pattern_scale", sym.R), "pynum"), True)))
+
+        def post(res):
+            if res is None:
+                return z3.BoolVal(True)
+            guard = z3.BoolVal(True)
+            if isinstance(res, SOpt):
+                guard, res = z3.Not(res.isnone), res.val
+            if not (isinstance(res, tuple) and len(res) == 2):
+                return z3.BoolVal(False)
+            sc = real_term(res[0])
+            if c.verifying:
+                k = skolem(ip, "sk_pat", n)
+                index_used(ip, k)
+                g = z3.Implies(z3.And(guard, k >= 0, k < n), z3.And(ip.models.len_term(row.n) == n, entry_is(k, sc)))
+                ip.reg.saturate(ip)
+                return g
+            # applied: the fact for every position, instantiated at the index terms in use
+            def pw(k):
+                if _once1(ip, f"pattern:{tagname}:{k}"):
+                    ip.path.guards.append(z3.And(k >= 0, k < n))
+                    try:
+                        f = entry_is(k, sc)
+                    finally:
+                        ip.path.guards.pop()
+                    ip.path.assume(z3.Implies(z3.And(guard, k >= 0, k < n), f))
+            _seqs(ip).pointwise.append(pw)
+            return z3.Implies(guard, ip.models.len_term(row.n) == n)
+        c.ensures("every entry is scale * V[k]", post)
